@@ -94,6 +94,10 @@ func corpus() []*caseProg {
 	// item size limit
 	cs = append(cs, mk("cat-too-big", bigGas, asm(opcode.PUSHINT32, le32(131070), opcode.NEWBUFFER, opcode.PUSH1, opcode.NEWBUFFER, opcode.CAT)))
 	cs = append(cs, mk("newbuffer-max+1", bigGas, asm(opcode.PUSHINT32, le32(131071), opcode.NEWBUFFER)))
+	// … and exactly at the limit: a buffer of MaxSize bytes, CAT to exactly MaxSize, converted to a ByteString
+	cs = append(cs, mk("newbuffer-max", bigGas, asm(opcode.PUSHINT32, le32(131070), opcode.NEWBUFFER, opcode.RET)))
+	cs = append(cs, mk("cat-exact-max", bigGas, asm(opcode.PUSHINT32, le32(131069), opcode.NEWBUFFER, opcode.PUSH1, opcode.NEWBUFFER, opcode.CAT,
+		opcode.CONVERT, 0x28, opcode.DUP, opcode.SIZE, opcode.DROP, opcode.RET)))
 	// gas: stops exactly at the limit
 	cs = append(cs, &caseProg{scripts: [][]byte{rep(opcode.PUSH1, 100)}, gasLimit: 1, base: 100, kind: "corpus:gas-exact"})
 	cs = append(cs, &caseProg{scripts: [][]byte{rep(opcode.PUSH1, 100)}, gasLimit: 1, base: 101, kind: "corpus:gas-over"})
@@ -134,6 +138,27 @@ func corpus() []*caseProg {
 	// the last reference to a container is consumed by the instruction that changes it
 	cs = append(cs, mk("last-ref", bigGas, asm(opcode.NEWARRAY0, opcode.PUSH1, opcode.APPEND, opcode.PUSH2, opcode.NEWARRAY, opcode.PUSH0, opcode.PUSH1, opcode.SETITEM,
 		opcode.NEWMAP, opcode.PUSH1, opcode.PUSH1, opcode.SETITEM, opcode.PUSH1, opcode.NEWSTRUCT, opcode.CLEARITEMS, opcode.PUSH1, opcode.NEWARRAY, opcode.PUSH0, opcode.REMOVE, opcode.RET)))
+	// a compound as map key: validateMapKey / Map.Add panic, the model predicts the FAULT itself
+	cs = append(cs, mk("setitem-compound-key", bigGas, asm(opcode.NEWMAP, opcode.DUP, opcode.NEWARRAY0, opcode.PUSH1, opcode.SETITEM, opcode.RET)))
+	cs = append(cs, mk("setitem-compound-key-array", bigGas, asm(opcode.PUSH2, opcode.NEWARRAY, opcode.DUP, opcode.NEWMAP, opcode.PUSH1, opcode.SETITEM, opcode.RET)))
+	cs = append(cs, mk("packmap-compound-key", bigGas, asm(opcode.PUSH5, opcode.PUSH1, opcode.PUSH6, opcode.NEWSTRUCT0, opcode.PUSH2, opcode.PACKMAP, opcode.RET)))
+	// invocation depth exactly at the limit (entry + 1023 nested CALLs = 1024 contexts, then all return) / one more
+	recurse := func(n int) []byte {
+		return asm(opcode.INITSSLOT, 1, opcode.PUSH0, opcode.STSFLD0, opcode.CALL, 3, opcode.RET,
+			opcode.LDSFLD0, opcode.INC, opcode.DUP, opcode.STSFLD0, opcode.PUSHINT16, byte(n), byte(n>>8), opcode.JMPGE, 4, opcode.CALL, -9, opcode.RET)
+	}
+	cs = append(cs, mk("call-depth-1024-ok", bigGas, recurse(1023)), mk("call-depth-1025", bigGas, recurse(1024)))
+	// exactly 2048 references spread over a static slot, an array and the stack / one more
+	mixed := func(extra int) []byte {
+		return asm(opcode.INITSSLOT, 200, opcode.PUSHINT16, 0xe8, 0x03, opcode.NEWARRAY, rep(opcode.PUSH1, 847+extra), opcode.RET)
+	}
+	cs = append(cs, mk("mixed-2048", bigGas, mixed(0)), mk("mixed-2049", bigGas, mixed(1)))
+	// a SYSCALL handler's own charge reaches the limit exactly (HALT) — gas-syscall above is one datoshi short
+	cs = append(cs, &caseProg{scripts: [][]byte{asm(sys(sysBurn, 20, 0, 0), opcode.RET)}, gasLimit: 20000, base: 30, kind: "corpus:gas-syscall-exact"})
+	// the gas runs out exactly at the last instruction of a nested call: the RETs are free
+	// (CALL 512 + 113 NOP) * 16 = 10000 picoGAS = 1 datoshi; with one more NOP it faults inside the callee
+	cs = append(cs, &caseProg{scripts: [][]byte{asm(opcode.CALL, 3, opcode.RET, rep(opcode.NOP, 113), opcode.RET)}, gasLimit: 1, base: 16, kind: "corpus:gas-exact-nested"})
+	cs = append(cs, &caseProg{scripts: [][]byte{asm(opcode.CALL, 3, opcode.RET, rep(opcode.NOP, 114), opcode.RET)}, gasLimit: 1, base: 16, kind: "corpus:gas-over-nested"})
 	// what the limits prescribe for the boundary cases
 	want := map[string][2]any{
 		"corpus:try-16": {"HALT", 17}, "corpus:try-17": {"FAULT", 17},
@@ -142,7 +167,11 @@ func corpus() []*caseProg {
 		"corpus:newarray-2047": {"HALT", 3}, "corpus:newarray-2048": {"FAULT", 2},
 		"corpus:int-overflow": {"FAULT", 2}, "corpus:int-min": {"FAULT", 2}, "corpus:int-min-negate": {"FAULT", 2},
 		"corpus:shl-256": {"FAULT", 5}, "corpus:cat-too-big": {"FAULT", 5}, "corpus:newbuffer-max+1": {"FAULT", 2},
+		"corpus:newbuffer-max": {"HALT", 3}, "corpus:cat-exact-max": {"HALT", 10},
 		"corpus:gas-exact": {"HALT", 101}, "corpus:gas-zero": {"FAULT", 1}, "corpus:gas-over": {"FAULT", 100}, "corpus:gas-syscall": {"FAULT", 1},
+		"corpus:setitem-compound-key": {"FAULT", 5}, "corpus:setitem-compound-key-array": {"FAULT", 6}, "corpus:packmap-compound-key": {"FAULT", 6},
+		"corpus:call-depth-1024-ok": {"HALT", 0}, "corpus:call-depth-1025": {"FAULT", 0}, "corpus:mixed-2048": {"HALT", 0}, "corpus:mixed-2049": {"FAULT", 0},
+		"corpus:gas-syscall-exact": {"HALT", 2}, "corpus:gas-exact-nested": {"HALT", 116}, "corpus:gas-over-nested": {"FAULT", 115},
 		"corpus:dynamic-2": {"FAULT", 5}, "corpus:retcount-mismatch": {"FAULT", 4}, "corpus:dynamic-0": {"HALT", 4},
 	}
 	for _, c := range cs {
